@@ -306,6 +306,13 @@ func (h *Harness) ModulePackageSourceAddr(ctx context.Context, pkgAddr regaddr.M
 			if err != nil {
 				return sourcebundle.ModulePackageSourceAddrResponse{}, fmt.Errorf("harness: bad real source %q: %v", v.Real, err)
 			}
+			// A registry client builds its answer from a URL value, not from text: the same
+			// address made through the constructor, from a URL that spells its escaped path out.
+			u := *src.Package().URL()
+			u.RawPath = u.EscapedPath()
+			if made, merr := sourceaddrs.MakeRemoteSource(src.Package().SourceType(), &u, src.SubPath()); merr == nil {
+				src = made
+			}
 			return sourcebundle.ModulePackageSourceAddrResponse{SourceAddr: src}, nil
 		}
 	}
